@@ -205,12 +205,20 @@ class C18:
             op = ev['op']
             tags = ev.get('tags', {})
             if op == 'acc_push' and rec['outcome'] == 'ok':
+                xc = ex.stats.setdefault('extra', {})
+                xc['scheduled_pushes'] = xc.get('scheduled_pushes', 0) + 1
+                if tags.get('producer') != ex.__dict__.get('_lastprod'):
+                    xc['producer_switches'] = \
+                        xc.get('producer_switches', 0) + 1
+                ex.__dict__['_lastprod'] = tags.get('producer')
                 a = rec['rargs']['acc']['ref']
                 f = ex.records.get(rec['rargs']['frm']['ref'])
                 if f and f['outcome'] == 'ok':
                     pushed.setdefault(a, []).append(
                         (rec['rargs']['frm']['ref'], vals(f['payload'])))
             elif op == 'acc_read' and rec['outcome'] == 'ok':
+                xc = ex.stats.setdefault('extra', {})
+                xc['interleaved_reads'] = xc.get('interleaved_reads', 0) + 1
                 a = rec['rargs']['acc']['ref']
                 frames = [f for _, f in pushed.get(a, [])]
                 self._check_read(ex, ev, rec, frames)
